@@ -187,8 +187,10 @@ func init() {
 			return nil
 		},
 		Phases: []fw.Phase{
-			{Name: "order-trie-H1", Space: "H1^<=5 x 5 contexts", Share: 3,
-				Run: func(w *fw.W) { w.Trie(alpha.H1, 0, 5) }, Eval: evalC17Order},
+			{Name: "order-trie-H1", Space: "H1^<=4 (quick) / <=5 (thorough) x 5 contexts", Share: 3,
+				Run: func(w *fw.W) { w.Trie(alpha.H1, 0, w.Pick(4, 5)) }, Eval: evalC17Order},
+			{Name: "order-trie-H1core-deep", Space: "H1core^5..6 (quick) / ^5..7 (thorough) x 5 contexts", Share: 3,
+				Run: func(w *fw.W) { w.Trie(alpha.H1core, 5, w.Pick(6, 7)) }, Eval: evalC17Order},
 			{Name: "order-trie-H2", Space: "H2^<=4 (quick) / <=5 (thorough) x 5 contexts", Share: 3,
 				Run: func(w *fw.W) { w.Trie(alpha.H2, 1, w.Pick(4, 5)) }, Eval: evalC17Order},
 			{Name: "order-corpus-cuts", Space: "all fixture cuts x 5 contexts", Share: 1,
